@@ -261,6 +261,15 @@ def _eval_atom(a, values):
     """Numeric value of a structured atom f<args> at the representatives (floating point, for comparisons only)."""
     import math
     f, args = _ATOMS[a]
+    if f in ("clip", "clamp", "clip_by_value") and len(args) == 3 and all(isinstance(x, Poly) for x in args):
+        v = float(args[0].evalf(values))
+        lo = None if str(args[1]) == "NONE" else float(args[1].evalf(values))
+        hi = None if str(args[2]) == "NONE" else float(args[2].evalf(values))
+        if lo is not None:
+            v = max(v, lo)
+        if hi is not None:
+            v = min(v, hi)
+        return Fraction(v)
     xs = []
     for x in args:
         if not isinstance(x, Poly):
@@ -279,6 +288,10 @@ def _eval_atom(a, values):
             r = abs(xs[0])
         elif f == "inv":
             r = 1.0 / xs[0]
+        elif f in ("max", "maximum"):
+            r = max(xs)
+        elif f in ("min", "minimum"):
+            r = min(xs)
         else:
             raise Undecided(f"no numeric model for {f}")
     except (ValueError, OverflowError, ZeroDivisionError):
